@@ -94,7 +94,7 @@ def fmt_regex(site):
     """regex for the diagnostic text produced by this site's format"""
     fmt = site[2]
     m = re.match(r"expected (\S+) (.*)$", fmt)
-    call_expect = m is not None and m.group(1).startswith("T")
+    call_expect = m is not None and (m.group(1).startswith("T") or m.group(1) == "kind")
     if call_expect:
         tail = m.group(2)
         if tail.startswith("<expr:"):
